@@ -4,7 +4,7 @@
    append in flight: running Recover on the image ends with the same log file as the uninterrupted Recover and an index
    file that is the same or absent (then rebuilt on open), and that segment passes Check.  And the program run to its end
    leaves exactly what Codec.recover_bytes computes (the function the C07 theorems are about). *)
-From KV Require Import Base Model Codec ListAux CodecProofs RecoverProofs RecoverCrash.
+From KV Require Import Base Hash Model Codec ListAux CodecProofs RecoverProofs RecoverCrash.
 From Coq Require Import Lia.
 
 (* ---------- steps that touch only some files *)
@@ -395,3 +395,32 @@ Qed.
 
 End OneSegment.
 End Restart.
+
+(* ---------- the premises are satisfiable: a concrete head with a torn tail and an index that lags one item behind.
+   Recover renames the copy over the log and rewrites the index (13 steps); every crash image - all k, all j up to the
+   longest append - recovers to the same log and an index that is the new one or absent.  Evaluated by the kernel. *)
+Definition ex_p : params := mkParams true true.
+Definition ex_m0 : msg := mkMsg 0 5 [97%N] [98%N; 98%N].
+Definition ex_m1 : msg := mkMsg 1 6 [98%N] [99%N].
+Definition ex_log : bytes := enc_log crc32c V2 [ex_m0; ex_m1] ++ [1%N; 2%N; 3%N].
+Definition ex_idx : option bytes := Some (enc_index V2 ex_p (scan_items fnv64a ex_p [(8, ex_m0)])).
+
+Definition opt_bytes_eqb (a b : option bytes) : bool :=
+  match a, b with Some x, Some y => bytes_eqb x y | None, None => true | _, _ => false end.
+
+Definition ex_ok : bool :=
+  match recover_bytes crc32c fnv64a ex_p 0 ex_log ex_idx, recover_prog crc32c fnv64a ex_p 0 ex_log ex_idx with
+  | Ok (newlog, idx'), Ok prog =>
+    (13 =? Z.of_nat (length prog)) && bytes_eqb newlog (enc_log crc32c V2 [ex_m0; ex_m1]) &&
+    negb (opt_bytes_eqb idx' ex_idx) && negb (opt_bytes_eqb idx' None) &&
+    forallb (fun k => forallb (fun j =>
+        let img := rimage (mkRf ex_log (Some [7%N]) ex_idx None) prog k j in
+        match recover_bytes crc32c fnv64a ex_p 0 (rlog img) (ridx img) with
+        | Ok (l2, i2) => bytes_eqb l2 newlog && (opt_bytes_eqb i2 idx' || opt_bytes_eqb i2 None)
+        | Err _ => false
+        end) (seq 0 41)) (seq 0 15)
+  | _, _ => false
+  end.
+
+Example recover_restartable_example : ex_ok = true.
+Proof. vm_compute. reflexivity. Qed.
